@@ -414,9 +414,10 @@ func Run(e *core.Env) {
 	attrs := map[string]string{}
 	_ = chainKey
 
-	doCanary := t.Bool("canary", 1, 8)
+	doubleClose := t.Bool("doubleclose", 1, 6)
+	doCanary := doubleClose || t.Bool("canary", 1, 8)
 	work := func() {
-		decodeAndCheck(e, g, dict, body, globals, names, parms, direct, closeAt, dsched, attrs)
+		decodeAndCheck(e, g, dict, body, globals, names, parms, direct, closeAt, doubleClose, dsched, attrs)
 		// the decoders share a pool of zlib readers: after this run - however
 		// it ended - two Flate streams that are open at the same time must
 		// still be independent
@@ -459,7 +460,7 @@ type sinkBuf struct{ bytes.Buffer }
 
 func (s *sinkBuf) Close() error { return nil }
 
-func decodeAndCheck(e *core.Env, g *getter, dict pdf.Dict, body, globals []byte, names []pdf.Name, parms []pdf.Object, direct bool, closeAt int, dsched *simio.Schedule, attrs map[string]string) {
+func decodeAndCheck(e *core.Env, g *getter, dict pdf.Dict, body, globals []byte, names []pdf.Name, parms []pdf.Object, direct bool, closeAt int, doubleClose bool, dsched *simio.Schedule, attrs map[string]string) {
 	t := e.T
 	var ms0, ms1 runtime.MemStats
 	runtime.ReadMemStats(&ms0)
@@ -604,6 +605,12 @@ func decodeAndCheck(e *core.Env, g *getter, dict pdf.Dict, body, globals []byte,
 	}
 	cerr := rc.Close()
 	_ = cerr
+	if doubleClose {
+		// defer rc.Close() next to an explicit Close is everyday Go; whatever
+		// the second call returns, it must not disturb anything else
+		rc.Close()
+		e.Probe("reader closed twice")
+	}
 	e.Steps(reads)
 	if rerr != nil {
 		e.Probe("error while reading")
@@ -634,6 +641,28 @@ func errShape(err error) string {
 // error) and 2e34b46 (JPEG producer goroutine left blocked when a later stage
 // fails to build, or when the consumer closes a chain early).
 var corners = map[string]func(e *core.Env){
+	// Regression for ba2d403: a second Close of a decoded Flate stream put its
+	// zlib reader into the package-level pool a second time.
+	"flate-double-close": func(e *core.Env) {
+		runtime.GC()
+		runtime.GC()
+		g := &getter{meta: pdf.MetaInfo{Version: pdf.V1_7}, objs: map[pdf.Reference]pdf.Native{}}
+		var buf sinkBuf
+		enc, _ := pdf.FilterFlate{}.Encode(pdf.V1_7, &buf)
+		enc.Write(bytes.Repeat([]byte("double close "), 100))
+		enc.Close()
+		rc, err := pdf.DecodeStream(g, nil, pdf.NewStream(pdf.Dict{"Filter": pdf.Name("FlateDecode")}, buf.Bytes()))
+		if err != nil {
+			e.Fail("not-malformed", map[string]string{"at": "build", "err": errShape(err)}, "valid Flate stream: %v", err)
+			return
+		}
+		io.ReadAll(rc)
+		rc.Close()
+		rc.Close()
+		if err := core.FlateCanary(); err != nil {
+			e.Fail("pool-corrupted", map[string]string{}, "after a decoded Flate stream was closed twice, two Flate streams open at the same time interfere: %v", err)
+		}
+	},
 	// Regression for b50e8ef: a halftone region with an empty but very tall
 	// grid (HGW=0, HGH=2^32-1) ran its per-row loops 2^32 times per bit plane.
 	"jbig2-halftone-empty-grid": func(e *core.Env) {
